@@ -182,9 +182,18 @@ func reuseReceiver(a, b *mpkt, order string) {
 		c["order"] = order
 		return c
 	}
+	// what a caller keeps of the first decode: the section slices (and so the records and
+	// their RDATA) as they were handed out
+	kept := *g
 	var n int
 	p, v, st := mon.Guard(func() { n, err = g.Unmarshal(append([]byte(nil), wb...)) })
 	r.Eval(1)
+	if !p {
+		if k, d := diffLib(&a.Pkt, &kept); k != "" {
+			r.Violation("Unmarshal:receiver-reuse:kept-records-changed:"+k, "the questions/records kept from a first decode changed when the same packet value decoded another datagram: "+d, cs())
+			return
+		}
+	}
 	switch {
 	case p:
 		r.Violation("Unmarshal:panic:"+mon.PanicClass(v), fmt.Sprintf("panic %v at %s decoding into a used receiver", v, mon.TopLibFrame(st)), cs())
